@@ -241,6 +241,37 @@ theorem inv_cleanLoop {o fs0} (sg : Bool) (hc : o.clean = true) : ∀ (names : L
       rw [hb] at hr
       exact inv_cleanLoop sg hc rest st st' (fun m hm => hg m (List.mem_cons_of_mem _ hm)) hio h hr
 
+/-- a non-empty directory that happens to be named like an implementation file survives the loop (`remove` fails on it) -/
+theorem removeN_fs_nonEmpty (st : St) (n : Name) (l : Loc) (h : st.fs l = some .dirNonEmpty) :
+    (removeN st n).fs l = some .dirNonEmpty := by
+  by_cases hl : l = ⟨st.inOut, n⟩
+  · subst hl
+    unfold removeN
+    rw [h]
+    simp [removeEntry, St.emit, h]
+  · rw [removeN_fs_other st n l hl]
+    exact h
+
+theorem cleanLoop_fs_nonEmpty (sg : Bool) : ∀ (names : List Name) (st st' : St) (l : Loc),
+    st.fs l = some .dirNonEmpty → cleanLoop sg names st = .val st' → st'.fs l = some .dirNonEmpty
+  | [], st, st', l, h, hr => by
+    simp only [cleanLoop] at hr; cases hr; exact h
+  | n :: rest, st, st', l, h, hr => by
+    unfold cleanLoop at hr
+    rw [evalSteps_stepsB] at hr
+    cases hb : stepsB n with
+    | true =>
+      rw [hb] at hr
+      exact cleanLoop_fs_nonEmpty sg rest (removeN st n) st' l (removeN_fs_nonEmpty st n l h) hr
+    | false =>
+      rw [hb] at hr
+      exact cleanLoop_fs_nonEmpty sg rest st st' l h hr
+
+theorem cleanDir_fs_nonEmpty (w : World) (st st' : St) (l : Loc) (h : st.fs l = some .dirNonEmpty)
+    (hr : cleanDir w st = .val st') : st'.fs l = some .dirNonEmpty := by
+  rw [cleanDir_eq] at hr
+  exact cleanLoop_fs_nonEmpty _ _ _ _ l (by simpa [St.emit] using h) hr
+
 /-! ## writing -/
 
 theorem writeImpls_props (c : UInt8) : ∀ (idx : List (BitVec 32)) (st : St),
@@ -362,7 +393,7 @@ def orderOk : Bool → List MainStep → Bool
 
 theorem cleanDir_inv {o fs0 st st'} (w : World) (hc : o.clean = true) (hio : st.inOut = true) (h : Inv o fs0 st)
     (hr : cleanDir w st = .val st') : Inv o fs0 st' ∧ st'.inOut = st.inOut ∧ st'.done = st.done := by
-  unfold cleanDir at hr
+  rw [cleanDir_eq] at hr
   have hi := inv_emit (o := o) (fs0 := fs0) (.glob st.inOut globPatternString) ⟨hio, hc, rfl⟩ h
   refine ⟨inv_cleanLoop w.charSigned hc _ _ st' (fun n hn => by simpa using (List.mem_filter.mp hn).2) (by simpa [St.emit] using hio) hi hr, ?_⟩
   obtain ⟨st'', h1, h2, h3, _⟩ := cleanLoop_spec w.charSigned
